@@ -339,7 +339,8 @@ func filterEscapejs(in *Value, param *Value) (*Value, *Error) {
 	idx := 0
 	for idx < len(sin) {
 		c, size := utf8.DecodeRuneInString(sin[idx:])
-		if c == utf8.RuneError {
+		if c == utf8.RuneError && size <= 1 {
+			// invalid UTF-8 (a correctly encoded U+FFFD has size 3 and is kept)
 			idx += size
 			continue
 		}
